@@ -541,6 +541,10 @@ def cast_like(node: ir.Node, op, state: OptimizerState) -> ReturnValue:
         return None
     if source_element_type == target_element_type:
         return op.Identity(input0)
+    saturate = _get_int_attribute(node, "saturate", None)
+    if saturate is not None:
+        # CastLike-19 and Cast-19 share the saturate attribute (conversion to float8 types)
+        return op.Cast(input0, to=target_element_type, saturate=saturate)
     return op.Cast(input0, to=target_element_type)
 
 
